@@ -129,13 +129,16 @@ fn run_manager_case(out: &mut Out, id0: u64, start0: u64, duration: u64, t0: u64
             }
             MEv::Add { h, .. } => { if ok { kinds.insert("add"); if !registered.contains(h) { registered.push(*h); } else { out.monitor_fail("C20", "epoch manager: a hook was registered twice", replay.clone()); } }
                                     out.count(if ok { "mgr:add_ok" } else { "mgr:add_err" });
-                                    if after != before { out.monitor_fail("C20", "epoch manager: AddHook changed the epoch", replay.clone()); } }
+                                    if after != before { out.monitor_fail("C20", "epoch manager: AddHook changed the epoch", replay.clone()); }
+                                    if (0..3).any(|i| logs_after[i] != logs_before[i]) { out.monitor_fail("C20", "epoch manager: a hook was notified although no epoch was created (AddHook)", replay.clone()); } }
             MEv::SetGenesis { .. } => { if ok { kinds.insert("set_genesis"); }
                                         out.count(if ok { "mgr:set_genesis_ok" } else { "mgr:set_genesis_err" });
-                                        if after != before { out.monitor_fail("C20", "epoch manager: an update of the configured genesis moved the running clock", replay.clone()); } }
+                                        if after != before { out.monitor_fail("C20", "epoch manager: an update of the configured genesis moved the running clock", replay.clone()); }
+                                        if (0..3).any(|i| logs_after[i] != logs_before[i]) { out.monitor_fail("C20", "epoch manager: a hook was notified although no epoch was created (UpdateConfig)", replay.clone()); } }
             MEv::Remove { h, .. } => { if ok { kinds.insert("remove"); registered.retain(|x| x != h); }
                                        out.count(if ok { "mgr:remove_ok" } else { "mgr:remove_err" });
-                                       if after != before { out.monitor_fail("C20", "epoch manager: RemoveHook changed the epoch", replay.clone()); } }
+                                       if after != before { out.monitor_fail("C20", "epoch manager: RemoveHook changed the epoch", replay.clone()); }
+                                       if (0..3).any(|i| logs_after[i] != logs_before[i]) { out.monitor_fail("C20", "epoch manager: a hook was notified although no epoch was created (RemoveHook)", replay.clone()); } }
         }
         if ok && matches!(e, MEv::Create { .. }) { seen.push(after); }
         // Epoch { id } must report every epoch of the history with the start time it had (first, last, and a few recent ones)
